@@ -69,6 +69,7 @@ type txrec struct {
 	v2    types.V2Transaction
 	basis types.ChainIndex
 	ins   []types.SiacoinOutputID
+	made  []types.SiacoinOutputID
 	st    string // "out", "pool"
 	exp   int    // tick at which the reservation lapses
 	dup   bool
@@ -434,6 +435,7 @@ func (wd *world) describe(t *txrec) (d Desc, dup, cons bool) {
 			if sco.Address == wd.addr {
 				d.Made = append(d.Made, [2]int{wd.nm.id(t.v1.SiacoinOutputID(i)), toInt(sco.Value)})
 				wd.vals[t.v1.SiacoinOutputID(i)] = sco.Value
+				t.made = append(t.made, t.v1.SiacoinOutputID(i))
 			} else {
 				d.Out += toInt(sco.Value)
 			}
@@ -452,6 +454,7 @@ func (wd *world) describe(t *txrec) (d Desc, dup, cons bool) {
 			if sco.Address == wd.addr {
 				d.Made = append(d.Made, [2]int{wd.nm.id(t.v2.SiacoinOutputID(txid, i)), toInt(sco.Value)})
 				wd.vals[t.v2.SiacoinOutputID(txid, i)] = sco.Value
+				t.made = append(t.made, t.v2.SiacoinOutputID(txid, i))
 			} else {
 				d.Out += toInt(sco.Value)
 			}
@@ -732,6 +735,29 @@ func (wd *world) broadcast(t *txrec) (e ev) {
 		t.st = "pool"
 	}
 	return e
+}
+
+// mineAllowed mirrors the specification's guard ~DanglingV2: no v2 transaction still with its
+// caller spends an output of a known transaction that is not in the pool.
+func (wd *world) mineAllowed() bool {
+	orphan := map[types.SiacoinOutputID]bool{}
+	for _, u := range wd.txs {
+		if u.st != "pool" {
+			for _, id := range u.made {
+				orphan[id] = true
+			}
+		}
+	}
+	for _, t := range wd.txs {
+		if t.ver == 2 && t.st != "pool" {
+			for _, id := range t.ins {
+				if orphan[id] {
+					return false
+				}
+			}
+		}
+	}
+	return true
 }
 
 func (wd *world) mine() (ev, error) {
